@@ -43,5 +43,6 @@ func verifEnvBegin()                        { panic("verif intrinsic") }
 func verifEnvReplay()                       { panic("verif intrinsic") }
 func verifEnvEnd()                          { panic("verif intrinsic") }
 func verifRepeat() int                      { panic("verif intrinsic") }
+func verifGo(fn func())                     { panic("verif intrinsic") }
 
 func verifSymQtyU64(name string) uint64 { panic("verif intrinsic") }
